@@ -1,10 +1,14 @@
-"""C09 — configuration of the check (deductive tier under construction)."""
+"""C09 — Tiling images on a common TAN grid equals tiling the assembled mosaic."""
 PROPERTY = "C09"
-LEVEL = "exploration"
-CONTRACT_MODULES = ["contracts.specfuns"]
-FUNCTIONS = []
+LEVEL = "other"
+CONTRACT_MODULES = ["contracts.specfuns", "contracts.lemmas_desc", "contracts.pyramid", "contracts.image", "contracts.merge",
+                    "contracts.pyramidio", "contracts.study", "contracts.parallel", "contracts.multitan"]
+FUNCTIONS = ["toasty.multi_tan.MultiTanProcessor._tile_serial", "toasty.multi_tan._mp_tile_worker"]
 LEMMAS = []
 SLOW = ()
-TRUSTED_BASE = []
-ASSUMPTIONS = []
-EXPLANATION = "bounded run-time tier only so far"
+TRUSTED_BASE = ["pyvc VC generator; z3/cvc5", "numpy contracts (pyvc/ndarray.py)",
+                "parity sign / WCS flip contracts (C16); read_image(default='masked') yields a 256x256 buffer of the pyramid's mode"]
+ASSUMPTIONS = ["order independence and equality with the pasted mosaic follow from the per-input placement proved here and the "
+               "update semantics of C15 (undefined never overwrites, agreeing overlaps commute); that composition and the global "
+               "pixelization arithmetic are covered by the bounded tier"]
+EXPLANATION = "serial body and worker body proved against one display-orientation placement statement for both input and tile parities"
